@@ -138,7 +138,7 @@ PROPS = {
                  "force (legitimately or not) or a weakening was refused; distinct by the full case."),
         "assumptions": ["retention dates are now + minutes, never near a boundary", "in-process engine replicates runGateway wiring"],
         "jobs": [
-            {"run": "TestC10A", "quick": 9000, "thorough": 400000, "shards_quick": 16, "shards_thorough": 16},
+            {"run": "TestC10A", "quick": 27000, "thorough": 400000, "shards_quick": 16, "shards_thorough": 16},
         ],
     },
     "C09": {
